@@ -1075,6 +1075,8 @@ def run_steps(j):
             else:
                 os.environ['GI_SCANNER_DISABLE_CACHE'] = '1'
             for cfg in j['steps']:
+                cfg = dict(cfg)
+                os.chdir(cfg.pop('_cwd', None) or j['cwd'])     # a history may run from several directories
                 if loads is not None:
                     loads['calls'] = loads['hits'] = 0
                 try:
@@ -2053,25 +2055,7 @@ def gen_relcache(rng, directed, via):
     else:
         dirs = rng.sample(chain + schain, nfiles)
     # flavours: pairwise different in at least one property the scanned namespace shows
-    base = {'count': rng.choice(REL_COUNTS), 'hidden': rng.random() < 0.3, 'thing': rng.choice(REL_THINGS),
-            'extra': rng.random() < 0.7, 'item': rng.choice(REL_ITEMS)}
-    flavours = [base]
-    shown = set()
-    while len(flavours) < nfiles:
-        f = dict(base)
-        for k in rng.sample(sorted(REL_SHOWS), rng.choice([1, 1, 2, 3])):
-            if k == 'count':
-                f[k] = rng.choice([c for c in REL_COUNTS if c != base[k]])
-            elif k == 'thing':
-                f[k] = rng.choice([c for c in REL_THINGS if c != base[k]])
-            elif k == 'item':
-                f[k] = rng.choice([c for c in REL_ITEMS if c != base[k]])
-            else:
-                f[k] = not base[k]
-        if f in flavours:
-            continue
-        shown.update(k for k in REL_SHOWS if any(f[k] != g[k] for g in flavours))
-        flavours.append(f)
+    flavours, shown = rel_flavours(rng, nfiles)
     if directed or rng.random() < 0.5:
         stamp = rng.choice([1700000000, 315532800, 1]) * 10 ** 9 + rng.choice([0, 0, 123456789])
         mtimes = [stamp] * nfiles
@@ -2105,9 +2089,81 @@ def gen_relcache(rng, directed, via):
             'extra_dirs': schain + chain}
 
 
+def rel_flavours(rng, nfiles):
+    """nfiles builds of Dep, pairwise different in a property the scanned namespace shows; (flavours, shown)"""
+    base = {'count': rng.choice(REL_COUNTS), 'hidden': rng.random() < 0.3, 'thing': rng.choice(REL_THINGS),
+            'extra': rng.random() < 0.7, 'item': rng.choice(REL_ITEMS)}
+    flavours = [base]
+    shown = set()
+    while len(flavours) < nfiles:
+        f = dict(base)
+        for k in rng.sample(sorted(REL_SHOWS), rng.choice([1, 1, 2, 3])):
+            if k == 'count':
+                f[k] = rng.choice([c for c in REL_COUNTS if c != base[k]])
+            elif k == 'thing':
+                f[k] = rng.choice([c for c in REL_THINGS if c != base[k]])
+            elif k == 'item':
+                f[k] = rng.choice([c for c in REL_ITEMS if c != base[k]])
+            else:
+                f[k] = not base[k]
+        if f in flavours:
+            continue
+        shown.update(k for k in REL_SHOWS if any(f[k] != g[k] for g in flavours))
+        flavours.append(f)
+    return flavours, shown
+
+
+def gen_relcwd(rng, via, same_mtime=True):
+    """the scans of one history run from SEVERAL working directories (two projects built one after the
+    other by one user): the same relative spelling (Dep-1.0.gir, ../Dep-1.0.gir, s/Dep-1.0.gir, ..)
+    names a different build of the dependency from each of them, all with the same st_mtime_ns."""
+    nfiles = rng.choice([2, 2, 3])
+    projs = rng.sample(['projA', 'projB', 'a', 'b', 'x', 'v2', 'out', 'deps', 'gir'], nfiles)
+    builds = [rng.choice(['build', '_build', 'b'])] * nfiles if rng.random() < 0.5 else \
+        rng.sample(['build', 'bld', 'obj', 'o', 'w'], nfiles)
+    cwds = ['%s/%s' % (p_, b_) for p_, b_ in zip(projs, builds)]
+    s = rng.choice(['s', 'sub', 'girs'])
+    rel = rng.choice(['.', '.', '..', s, '../' + s])
+    dirs = [os.path.normpath(os.path.join(w, rel)) for w in cwds]
+    flavours, shown = rel_flavours(rng, nfiles)
+    if same_mtime:
+        stamp = rng.choice([1700000000, 315532800, 1]) * 10 ** 9 + rng.choice([0, 0, 123456789])
+        mtimes = [stamp] * nfiles
+    else:
+        mtimes = [(1600000000 + 1000 * i) * 10 ** 9 for i in range(nfiles)]
+        rng.shuffle(mtimes)
+
+    def spell(rel_):
+        if via == 'searchpath':
+            pre = rng.choice(['', '', './', './/', '././']) if rel_ != '.' else rng.choice(['', '', './', './/'])
+            return (pre + rel_) + rng.choice(['', '', '/'])
+        p = REL_DEP if rel_ == '.' else rel_ + '/' + REL_DEP
+        return rng.choice(['', '', '', './', './/']) + p
+    shared = spell(rel)
+    order = list(range(nfiles))
+    rng.shuffle(order)
+    # every project scans its own build under the SAME spelling, one after the other ...
+    steps = [{'cwd': cwds[i], 'file': i, 'spelling': shared} for i in order]
+    # ... then further scans: a project's own build again (shared or another spelling), or the build of
+    # another project named by its relative path from here
+    for _ in range(rng.choice([1, 2, 3])):
+        w = rng.randrange(nfiles)
+        k = w if rng.random() < 0.6 else rng.randrange(nfiles)
+        if k == w and rng.random() < 0.5:
+            steps.append({'cwd': cwds[w], 'file': k, 'spelling': shared})
+        else:
+            steps.append({'cwd': cwds[w], 'file': k, 'spelling': spell(os.path.relpath(dirs[k], cwds[w]))})
+    if rng.random() < 0.7:
+        steps.append(dict(steps[0]))
+    extra = cwds + [os.path.join(w, s) for w in cwds] + [os.path.join(p_, s) for p_ in projs]
+    return {'cwd': cwds[0], 'files': [{'dir': d, 'flavour': f, 'mtime_ns': mt} for d, f, mt in zip(dirs, flavours, mtimes)],
+            'via': via, 'decls': rel_decls(rng, shown, via), 'steps': steps, 'directed': 'cwds', 'extra_dirs': extra}
+
+
 def rel_materialise(sc, root):
     """writes the tree of one scenario under root; returns the runner job (without id)"""
-    for d in sc['extra_dirs'] + [sc['cwd']]:
+    for d in sc['extra_dirs'] + [sc['cwd']] + [st['cwd'] for st in sc['steps'] if st.get('cwd')] \
+            + [fl['dir'] for fl in sc['files']]:
         os.makedirs(os.path.join(root, 'tree', d), exist_ok=True)
     tree = os.path.realpath(os.path.join(root, 'tree'))
     paths = []
@@ -2121,9 +2177,9 @@ def rel_materialise(sc, root):
     os.makedirs(mid, exist_ok=True)
     with open(os.path.join(mid, 'Mid-1.0.gir'), 'w', encoding='utf-8') as f:
         f.write(REL_MID_GIR)
-    cwd = os.path.join(tree, sc['cwd'])
     cfgs = []
     for st in sc['steps']:
+        cwd = os.path.join(tree, st.get('cwd') or sc['cwd'])
         sp = st['spelling']
         if sp.startswith('/ABS/'):
             sp = os.path.join(tree, sp[5:], REL_DEP)
@@ -2139,8 +2195,9 @@ def rel_materialise(sc, root):
         # the generator's own bookkeeping: the spelling names the file it is meant to name
         if not os.path.samefile(os.path.join(cwd, named), paths[st['file']]):
             raise HarnessError('relcache: %r from %r does not name %r' % (named, cwd, paths[st['file']]))
+        cfg['_cwd'] = cwd
         cfgs.append(cfg)
-    return {'cwd': cwd, 'xdg': os.path.join(root, 'xdg'), 'steps': cfgs}
+    return {'cwd': os.path.join(tree, sc['cwd']), 'xdg': os.path.join(root, 'xdg'), 'steps': cfgs}
 
 
 def rel_key(sc):
@@ -2149,10 +2206,11 @@ def rel_key(sc):
 
 def rel_describe(sc, i):
     st = sc['steps'][i]
-    hist = ', '.join('%s(file %d)' % (s['spelling'], s['file']) for s in sc['steps'][:i]) or 'none'
+    hist = ', '.join('%s(file %d, from <tree>/%s)' % (s['spelling'], s['file'], s.get('cwd') or sc['cwd'])
+                     for s in sc['steps'][:i]) or 'none'
     return ('scan %d of a cache history, run from <tree>/%s with the dependency named %s%r (file %d in <tree>/%s, '
             'mtime_ns %d); earlier cached scans: %s; files: %s'
-            % (i, sc['cwd'], 'through the include directory ' if sc['via'] == 'searchpath' else '', st['spelling'],
+            % (i, st.get('cwd') or sc['cwd'], 'through the include directory ' if sc['via'] == 'searchpath' else '', st['spelling'],
                st['file'], sc['files'][st['file']]['dir'], sc['files'][st['file']]['mtime_ns'], hist,
                '; '.join('%d=<tree>/%s/%s mtime_ns %d' % (k, f['dir'], REL_DEP, f['mtime_ns'])
                          for k, f in enumerate(sc['files']))))
@@ -2181,9 +2239,9 @@ def rel_judge(ctx, cnt, sc, r, seed):
         if ld is not None:
             cnt.hit('relcache:loads', ld[0])
             cnt.hit('relcache:hits', ld[1])
-            if (st['file'], st['spelling']) in seen and ld[1]:
+            if (st['file'], st['spelling'], st.get('cwd')) in seen and ld[1]:
                 cnt.hit('relcache:repeated-spelling-answered-from-cache')
-        seen.add((st['file'], st['spelling']))
+        seen.add((st['file'], st['spelling'], st.get('cwd')))
         if c == w:
             cnt.hit('relcache:equal')
             continue
@@ -2200,10 +2258,14 @@ def rel_judge(ctx, cnt, sc, r, seed):
 
 
 def relcache(ctx, cnt, pool, rng, seeds, count, samples):
-    scs = []
+    scs = load_rel_corpus()
+    cnt.hit('relcache:corpus-scenarios', len(scs))
     for i in range(count):
         # three out of four: the directed class (same mtime, paths differing in leading '.'/'/' only)
         scs.append(gen_relcache(rng, directed=(i % 4 != 3), via=('searchpath' if i % 3 == 2 else 'uninstalled')))
+    for i in range(max(4, count // 2)):
+        # histories run from several working directories: one relative spelling, a different file from each
+        scs.append(gen_relcwd(rng, via=('searchpath' if i % 3 == 2 else 'uninstalled'), same_mtime=(i % 4 != 3)))
     jobs = {}
     meta = {}
     for i, sc in enumerate(scs):
@@ -2216,9 +2278,18 @@ def relcache(ctx, cnt, pool, rng, seeds, count, samples):
     n = 0
     for jid, (sc, seed) in meta.items():
         cnt.case(['relcache', sc], nontrivial=True)
-        cnt.hit('relcache:scenario:%s:%s:%d-files:%s' % ('directed' if sc['directed'] else 'free', sc['via'], len(sc['files']),
+        cnt.hit('relcache:scenario:%s:%s:%d-files:%s' % (sc['directed'] if isinstance(sc['directed'], str) else
+                                                       'directed' if sc['directed'] else 'free', sc['via'], len(sc['files']),
                                                        'same-mtime' if len(set(f['mtime_ns'] for f in sc['files'])) == 1 else 'mtimes-differ'))
-        cnt.hit('relcache:first-cached:%s' % os.path.relpath(sc['files'][sc['steps'][0]['file']]['dir'], sc['cwd']))
+        cnt.hit('relcache:first-cached:%s' % os.path.relpath(sc['files'][sc['steps'][0]['file']]['dir'],
+                                                             sc['steps'][0].get('cwd') or sc['cwd']))
+        if len(set(st.get('cwd') or sc['cwd'] for st in sc['steps'])) > 1:
+            cnt.hit('relcache:history-from-several-working-directories')
+            by_sp = {}
+            for st in sc['steps']:
+                by_sp.setdefault(st['spelling'], set()).add(st['file'])
+            if any(len(v) > 1 for v in by_sp.values()):
+                cnt.hit('relcache:one-spelling-names-several-files')
         n += rel_judge(ctx, cnt, sc, res[jid], seed)
     if scs and len(samples) < 4:
         samples.append({'op': 'relcache', 'scenario': {k: scs[0][k] for k in ('cwd', 'files', 'via', 'steps')}})
@@ -2228,6 +2299,22 @@ def relcache(ctx, cnt, pool, rng, seeds, count, samples):
     if scs and 'relcache:loads' in cnt.counts and not cnt.counts.get('relcache:hits'):
         ctx.broken.append('cache histories over relative paths not exercised: no scan of a history was answered from the cache')
     return n
+
+
+def load_rel_corpus():
+    """hand-picked cache histories (scenario objects of the relcache stage): corpus/C16/relcache/*.json"""
+    cpath = os.path.join(VERIF, 'corpus', 'C16', 'relcache')
+    out = []
+    if os.path.isdir(cpath):
+        for fn in sorted(os.listdir(cpath)):
+            if fn.endswith('.json'):
+                with open(os.path.join(cpath, fn)) as f:
+                    for c in json.load(f):
+                        c.pop('comment', None)
+                        c.setdefault('directed', 'corpus')
+                        c.setdefault('extra_dirs', [])
+                        out.append(c)
+    return out
 
 
 def load_corpus():
@@ -2432,7 +2519,8 @@ def replay(ctx, rep):
         bad = 0
         for i, (c, w) in enumerate(zip(res['cold'], res['warm'])):
             same = c == w
-            print('scan %d %-28r file %d  loads/hits %s  %s' % (i, sc['steps'][i]['spelling'], sc['steps'][i]['file'],
+            print('scan %d from %-14s %-28r file %d  loads/hits %s  %s' % (i, sc['steps'][i].get('cwd') or sc['cwd'],
+                                                              sc['steps'][i]['spelling'], sc['steps'][i]['file'],
                                                               (res.get('loads') or [None] * 99)[i],
                                                               'identical to the cold scan' if same else
                                                               'DIFFERENT from the cold scan: ' + first_diff(c, w)))
